@@ -430,3 +430,30 @@ def order_dependence(members: list[type[DPTBase]], payloads: list[Any], rng: Any
                 if not _same_outcome(got, ref):
                     yield {"op": "encode", "cls": cls, "payload": payload, "value": ref_dec[cls][j][1], "isolated": ref, "interleaved": got,
                            "after": [c.__name__ for c in order[max(0, k - 3):k]]}
+
+
+def public_dpt_form(cls: type[DPTBase]) -> Any:
+    """The value_type / {"main", "sub"} form with which the public GroupAddressDPT.set() resolves to `cls` (None if none does)."""
+    forms: list[Any] = [cls.value_type] if cls.value_type else []
+    forms.append({"main": cls.dpt_main_number, "sub": cls.dpt_sub_number})
+    for form in forms:
+        if DPTBase.parse_transcoder(form) is cls:
+            return form
+    return None
+
+
+def table_relatives(cls: type[DPTBase], classes: list[type[DPTBase]]) -> dict[str, list[type[DPTBase]]]:
+    """Classes a group-address table could list for an address whose device uses `cls`:
+    own, parent (concrete ancestors), child (concrete subclasses, those transcoding differently first),
+    unrelated (same payload kind/length, no inheritance relation, different decoder)."""
+    concrete = set(classes)
+    parents = [c for c in cls.__mro__[1:] if c in concrete]
+    children = [c for c in classes if c is not cls and issubclass(c, cls)]
+    sig = behaviour_signature(cls)
+    children.sort(key=lambda c: (c.payload_length != cls.payload_length, behaviour_signature(c)[1:] == sig[1:]))
+    unrelated = [
+        c for c in classes
+        if c.payload_type is cls.payload_type and c.payload_length == cls.payload_length
+        and not issubclass(c, cls) and not issubclass(cls, c) and owner(c, "from_knx") != owner(cls, "from_knx")
+    ]
+    return {"own": [cls], "parent": parents[:1], "child": children[:2], "unrelated": unrelated[:1]}
